@@ -37,11 +37,11 @@ TRUSTED = ['translator tools/extract/padslices.py (AST of _padding_slices_inner/
 ASSUMPTIONS = ['floating-point rounding is outside the model; inputs are integer valued (cell '
                'sizes dyadic) so that every operation on the path is exact and comparison is exact',
                'n-d arrays: resize_array acts axis by axis on fibres; the model composes the '
-               'one-axis map along the axes. That NumPy slicing realises this is checked by the '
-               'correspondence run in 1-3 dimensions, not proved',
-               'offsets with offset + min(n_in, n_out) > max(n_in, n_out) and negative offsets are '
-               'outside the property (the code has no guard: NumPy broadcasting decides); they are '
-               'generated, recorded, and not compared']
+               'one-axis map along the axes (that the order of the axes is irrelevant is proved). '
+               'That NumPy slicing realises the fibre view is checked by the correspondence run '
+               'in 1-3 dimensions, not proved',
+               'offsets are naturals in the model; negative offsets are only generated as '
+               'malformed calls (must raise ValueError)']
 
 MODES = ['constant', 'symmetric', 'periodic', 'order0', 'order1']
 DIRS = ['forward', 'adjoint']
